@@ -42,6 +42,12 @@ type verifBufState struct {
 // in production - another request's data - instead of the poison pattern.
 var VerifPassThrough atomic.Bool
 
+// VerifBypass switches the whole instrumentation off (no registry, no events,
+// no lock): the pool behaves exactly as without the tag. For runs that need
+// the requests to run truly in parallel; set it before the first buffer is
+// taken and leave it on.
+var VerifBypass atomic.Bool
+
 var verifBufs = struct {
 	m      sync.Mutex
 	nextID int
@@ -50,6 +56,9 @@ var verifBufs = struct {
 }{reg: make(map[*byte]*verifBufState)}
 
 func verifGetBuf(size int) Buffer {
+	if VerifBypass.Load() {
+		return bytespool.Get(size)
+	}
 	b := bytespool.Get(size)
 	if cap(b) == 0 {
 		return b
@@ -71,6 +80,10 @@ func verifGetBuf(size int) Buffer {
 }
 
 func verifReleaseBuf(b Buffer) {
+	if VerifBypass.Load() {
+		bytespool.Release(b)
+		return
+	}
 	if b == nil {
 		bytespool.Release(b) // keeps the original behaviour (panic)
 		return
